@@ -410,7 +410,7 @@ mod validate {
     }
 
     /// structural clauses (before or after monomorphisation)
-    pub fn structural(p: &AirProgram, tp_names: &[String], generic_ids: &[u32], out: &mut Vec<Finding>) {
+    pub fn structural(p: &AirProgram, tp_names: &[String], generic_ids: &[u32], declared_structs: &[String], out: &mut Vec<Finding>) {
         for f in &p.functions {
             let mut add = |kind: &str, detail: String| {
                 out.push(Finding { fn_id: f.id.0, fn_name: f.name.clone(), kind: kind.into(), detail })
@@ -492,7 +492,17 @@ mod validate {
             for n in &m.inits {
                 if !p.structs.iter().any(|s| &s.name == n) && !reported.contains(n) {
                     reported.push(n.clone());
-                    add(if n.starts_with("__mono_") { "struct-missing-init-renamed" } else { "struct-missing-init" }, n.clone());
+                    add(
+                        if n.starts_with("__mono_") {
+                            "struct-missing-init-renamed"
+                        } else if !declared_structs.contains(n) {
+                            // the source declares no such struct anywhere: type inference let it through
+                            "struct-missing-init-undeclared"
+                        } else {
+                            "struct-missing-init"
+                        },
+                        n.clone(),
+                    );
                 }
             }
         }
@@ -558,7 +568,9 @@ mod validate {
             }
         }
         let mut r = HashMap::new();
-        for (p, a) in g.params.iter().zip(arg_tys.iter()) {
+        // call sites of closures pass the user arguments only
+        let skip = if g.params.first().is_some_and(|p| p.name == "__env") { 1 } else { 0 };
+        for (p, a) in g.params.iter().skip(skip).zip(arg_tys.iter()) {
             if let Some(a) = a {
                 go(&p.ty, a, &mut r);
             }
@@ -567,7 +579,7 @@ mod validate {
     }
 
     /// clauses that hold only after monomorphisation; `pre` = program before monomorphize
-    pub fn after_mono(pre: &AirProgram, post: &AirProgram, out: &mut Vec<Finding>) {
+    pub fn after_mono(pre: &AirProgram, post: &AirProgram, tp_names: &[String], out: &mut Vec<Finding>) {
         let generic_names: Vec<&str> = pre.functions.iter().filter(|f| !f.type_params.is_empty()).map(|f| f.name.as_str()).collect();
         let mut roots: Vec<String> = Vec::new();
         for f in &post.functions {
@@ -595,7 +607,38 @@ mod validate {
             for (callee, args) in &m.calls {
                 if generic_names.contains(&callee.as_str()) && !post.functions.iter().any(|g| &g.name == callee) {
                     let from_instance = post.mono_instances.iter().any(|i| i.result == f.id);
-                    add(if from_instance { "generic-callee-in-instance" } else { "generic-callee-not-instantiated" }, callee.clone());
+                    let g = pre.functions.iter().rev().find(|g| &g.name == callee && !g.type_params.is_empty());
+                    let is_closure = g.is_some_and(|g| g.params.first().is_some_and(|p| p.name == "__env"));
+                    let no_param_in_sig = g.is_some_and(|g| !g.params.iter().any(|p| ty_has_param(&p.ty)));
+                    let builtin_tp = tp_names.iter().any(|n| {
+                        matches!(n.to_lowercase().as_str(), "int" | "float" | "bool" | "string" | "i8" | "i16" | "i32" | "i64" | "u8" | "u16" | "u32" | "u64" | "f32" | "f64" | "null" | "void" | "array" | "vec")
+                    });
+                    // an argument that is the result of another (generic) call: its type is unresolved in the caller
+                    let arg_is_generic_result = args.iter().any(|a| match a {
+                        Operand::Copy(l) | Operand::Move(l) => f.blocks.iter().flat_map(|b| b.stmts.iter()).any(|st| match &st.kind {
+                            AirStmtKind::Assign { place: Place::Local(d), rvalue: Rvalue::Call { func: Callee::Named(n), .. } } => {
+                                d == l && (generic_names.contains(&n.as_str()) || post.mono_instances.iter().any(|i| post.functions.iter().any(|h| h.id == i.result && &h.name == n)))
+                            }
+                            _ => false,
+                        }),
+                        _ => false,
+                    });
+                    add(
+                        if is_closure {
+                            "generic-closure-callee-not-instantiated"
+                        } else if from_instance {
+                            "generic-callee-in-instance"
+                        } else if is_closure {
+                            "generic-closure-callee-not-instantiated"
+                        } else if no_param_in_sig && builtin_tp {
+                            "generic-callee-not-instantiated:type-param-named-like-builtin"
+                        } else if arg_is_generic_result {
+                            "generic-callee-not-instantiated:argument-is-generic-call-result"
+                        } else {
+                            "generic-callee-not-instantiated"
+                        },
+                        callee.clone(),
+                    );
                     continue;
                 }
                 // a call to an instance: the instance must be the one for these argument types
@@ -620,8 +663,12 @@ mod validate {
                         i.original == inst.original && want.iter().zip(i.type_args.iter()).all(|(w, h)| matches!(w, Some(w) if w == h))
                     });
                     let from_instance = post.mono_instances.iter().any(|i| i.result == f.id);
+                    let closure_callee = g.params.first().is_some_and(|p| p.name == "__env");
                     add(
-                        if exact_exists && n_inst >= 2 { "call-wrong-instance-of-several" } else if from_instance { "instance-call-no-exact-instance" } else { "call-wrong-instance" },
+                        if closure_callee {
+                            // the environment parameter took part in the pairing
+                            "generic-closure-call-wrong-instance"
+                        } else if exact_exists && n_inst >= 2 { "call-wrong-instance-of-several" } else if from_instance { "instance-call-no-exact-instance" } else { "call-wrong-instance" },
                         format!("{} instances={}", g.name, n_inst),
                     );
                 }
@@ -822,14 +869,16 @@ fn mono_case(pre: &AirProgram, post: &AirProgram) -> (String, String) {
         let locals: Vec<String> = f.locals.iter().map(|l| format!("({}, {})", l.id.0, enc.ty(&l.ty))).collect();
         let ret = enc.ty(&f.ret_ty);
         let (body, _) = enc.body(f, None);
+        let env = f.params.first().is_some_and(|p| p.name == "__env" && matches!(p.ty, AirType::Ptr(_)));
         fns.push(format!(
-            "mkmfn (NPlain {}) {} [{}] {} [{}] {} []",
+            "mkmfn (NPlain {}) {} [{}] {} [{}] {} [] {}",
             name,
             nlist(&tps),
             params.join(";"),
             ret,
             locals.join(";"),
-            body
+            body,
+            env
         ));
     }
     let mut structs = Vec::new();
@@ -1136,6 +1185,14 @@ impl<'a> Gen<'a> {
             let q = self.name("q");
             return format!("{}(fn({}: int) -> void {{ print({}) }})({})\n", p, q, q, self.expr(Ty::Int, 1, sc));
         }
+        let g1: Vec<String> = self.generics.iter().filter(|(_, k)| *k == 1).map(|(g, _)| g.clone()).collect();
+        let g5: Vec<String> = self.generics.iter().filter(|(_, k)| *k == 5).map(|(g, _)| g.clone()).collect();
+        if r == 31 && !g1.is_empty() && !g5.is_empty() && self.rng.chance(1, 2) {
+            // the result of a generic call as the Vec<T> argument of another generic call
+            self.st.hit("generic-result-to-compound-param");
+            let w = self.name("w");
+            return format!("{}let {} = {}({}(Vec[1, 2]), 3)\n", p, w, self.rng.pick(&g5), self.rng.pick(&g1));
+        }
         if r == 31 {
             self.st.hit("cast");
             let v = self.name("v");
@@ -1315,7 +1372,21 @@ impl<'a> Gen<'a> {
             let nm = if self.rng.chance(1, 2) { "T" } else { "U" };
             s.push_str(&format!("fn early{}() -> int {{\n  struct {} {{ a: int }}\n  let e = {} {{ a: 1 }}\n  return e.a\n}}\n", self.fresh, nm, nm));
         }
+        let with_global = self.rng.chance(1, 5);
+        if with_global {
+            s.push_str("let gk = 5\n");
+        }
         s.push_str("fn add2(a: int, b: int) -> int { return a + b }\n");
+        if self.rng.chance(1, 12) {
+            // type parameters spelled like builtin types
+            self.st.hit("type-param-named-like-builtin");
+            let g = self.name("gb");
+            s.push_str(&format!("fn {}<Int>(x: Int) -> Int {{\n  return x\n}}\nfn use{}() -> int {{\n  return {}(3)\n}}\n", g, g, g));
+        }
+        if self.rng.chance(1, 12) {
+            self.st.hit("unknown-struct-literal");
+            s.push_str(&format!("fn unk{}() -> int {{\n  let u = Nowhere {{ a: 1 }}\n  return 1\n}}\n", self.fresh));
+        }
         // generic helpers
         let ng = self.rng.below(5);
         for _ in 0..ng {
@@ -1358,6 +1429,11 @@ impl<'a> Gen<'a> {
             } else if flavour == 2 && with_generic_struct {
                 self.st.hit("generic-struct-literal");
                 body.push_str("  let bx = Box { v: x }\n");
+            }
+            if with_global && self.rng.chance(1, 3) {
+                // reading a top-level let makes the generic function a closure (environment parameter)
+                self.st.hit("generic-fn-reading-global");
+                body.push_str("  print(gk)\n");
             }
             if kind >= 4 || self.rng.chance(1, 4) {
                 self.st.hit("compound-local-in-generic");
@@ -1669,9 +1745,11 @@ fn run_case(case: &str, code: &str, modes: &[&str], st: &mut Stats) {
         let idx_of = |id: u32| pre.functions.iter().position(|f| f.id.0 == id);
         let mut tp_names: Vec<String> = Vec::new();
         collect_tp_names(&tp.stmts, &mut tp_names);
+        let mut declared_structs: Vec<String> = Vec::new();
+        structs_in_stmts(&tp.stmts, &mut declared_structs);
         let mut generic_ids: Vec<u32> = pre.functions.iter().filter(|f| !f.type_params.is_empty()).map(|f| f.id.0).collect();
         let mut fs = Vec::new();
-        validate::structural(&pre, &tp_names, &generic_ids, &mut fs);
+        validate::structural(&pre, &tp_names, &generic_ids, &declared_structs, &mut fs);
         for f in &fs {
             let ix = idx_of(f.fn_id).map(|i| i as i64).unwrap_or(-1);
             println!("V\t{}\t{}\tpre\t{}\t{}\t{}\t{}", case, mode, ix, esc(&f.fn_name), f.kind, esc(&f.detail));
@@ -1699,8 +1777,8 @@ fn run_case(case: &str, code: &str, modes: &[&str], st: &mut Stats) {
         };
         let mut fs = Vec::new();
         generic_ids.extend(post.mono_instances.iter().map(|i| i.result.0));
-        validate::structural(&post, &tp_names, &generic_ids, &mut fs);
-        validate::after_mono(&pre, &post, &mut fs);
+        validate::structural(&post, &tp_names, &generic_ids, &declared_structs, &mut fs);
+        validate::after_mono(&pre, &post, &tp_names, &mut fs);
         for f in &fs {
             // instances inherit the CFG of their generic original
             let src_id = post.mono_instances.iter().find(|i| i.result.0 == f.fn_id).map(|i| i.original.0).unwrap_or(f.fn_id);
